@@ -529,7 +529,19 @@ impl Scenario for ForeignAdminDuringPaseFailSafe {
         if let (true, Some((true, t_pase)), Some((_, code, t_cmd))) = (run.all_done && commissioned, pase_ok, cmd) {
             // The command arrived while the PASE-armed fail-safe was certainly still running
             // (it lasts 60 s from the PASE establishment)
-            if t_cmd > t_pase && t_cmd < t_pase + 40 * SEC {
+            // (B saw its PASE session established: the device had armed the fail-safe before that;
+            // A's command was *sent* after that instant - an answer that merely arrived later may
+            // belong to a command the device handled before the fail-safe was armed)
+            let t_cmd_start = run
+                .log
+                .iter()
+                .filter(|e| e.node == 1)
+                .find_map(|e| match &e.kind {
+                    FullKind::Step { name, result: None } if *name == "arm_failsafe_checked" || *name == "commissioning_complete_case" => Some(e.time),
+                    _ => None,
+                })
+                .unwrap_or(0);
+            if t_cmd_start > t_pase && t_cmd < t_pase + 40 * SEC {
                 out.count("c08_foreign_commands_during_pase_failsafe", 1);
                 if code == 0xffff {
                     out.violate("C08-foreign-context-accepted", describe());
